@@ -468,6 +468,8 @@ type LoopContract struct {
 	Invariants []*Clause
 	Decreases  *Clause
 	NoAuto     bool
+	Modifies    []string // loop-level frame: locations the loop may write, relative to the state at loop entry
+	ModifiesSet bool
 }
 
 type Contract struct {
@@ -502,6 +504,7 @@ type PureFunc struct {
 	Text    string
 	Pkg     string
 	Recursive bool
+	Opaque  bool // kept as a function symbol with a pattern-guarded definitional axiom (gives quantifier triggers)
 	Line    int
 }
 
@@ -539,7 +542,7 @@ type SpecFile struct {
 }
 
 var clauseKeywords = map[string]bool{
-	"func": true, "pure": true, "props": true, "requires": true, "ensures": true, "modifies": true,
+	"func": true, "pure": true, "opaque": true, "props": true, "requires": true, "ensures": true, "modifies": true,
 	"loop": true, "invariant": true, "decreases": true, "assert_at": true, "table": true, "axiom": true,
 	"lemma": true, "inline": true, "arith": true, "trusted": true, "cover": true, "note": true,
 	"maypanic": true, "noauto": true, "params": true, "allowexit": true, "extern": true,
@@ -620,11 +623,12 @@ func ParseSpecFile(path, pkg, content string) (*SpecFile, error) {
 			curLoop = nil
 			curLemma = nil
 			sf.Contracts = append(sf.Contracts, cur)
-		case "pure":
+		case "pure", "opaque":
 			pf, err := parsePure(rest, pkg, l.line)
 			if err != nil {
 				return nil, fmt.Errorf("%s:%d: %v", path, l.line, err)
 			}
+			pf.Opaque = kw == "opaque"
 			sf.Pures = append(sf.Pures, pf)
 			cur, curLoop, curLemma = nil, nil, nil
 		case "axiom":
@@ -689,6 +693,16 @@ func ParseSpecFile(path, pkg, content string) (*SpecFile, error) {
 				cur.Covers = append(cur.Covers, c)
 			}
 		case "modifies":
+			if curLoop != nil {
+				curLoop.ModifiesSet = true
+				for _, m := range strings.Split(rest, ",") {
+					m = strings.TrimSpace(m)
+					if m != "" && m != "nothing" {
+						curLoop.Modifies = append(curLoop.Modifies, m)
+					}
+				}
+				break
+			}
 			if cur == nil {
 				return nil, fmt.Errorf("%s:%d: modifies outside func", path, l.line)
 			}
